@@ -72,6 +72,24 @@ class C02(Prop):
                     pns = [rng.choice([0.0, 1.0 - p, rng.random() * (1 - p)]) for p in pps]
                     yield {'kind': 'pp-multi', 'coeffs': coeffs, 'mts': mts, 'pp': pps, 'pn': pns, 'w': ws, 'wmode': wmode}
 
+        # many stations, each with a moderately small probability: the joint log-likelihood is far below the underflow threshold of a
+        # product of probabilities (ln 1e-308 = -709) although no station has probability zero
+        for i in range(6 if tier == 'quick' else 60):
+            ns = rng.choice([120, 250, 400])
+            mts = [unit6(rng) for _ in range(2)]
+            z = rng.choice([1.5, 2.0, 2.5])
+            sig = [rng.choice([0.05, 0.2, 1.0]) for _ in range(ns)]
+            # coefficient vector = -z*sigma*m0 so that the modelled amplitude for the first tensor is -z sigma (wrong polarity by z sigma)
+            coeffs = [[[-z * sg * v for v in mts[0]]] for sg in sig]
+            wv = rng.choice([0.0, 0.0, 0.1])
+            if rng.random() < 0.6:
+                yield {'kind': 'pol-multi', 'coeffs': coeffs, 'mts': mts, 'sigma': sig, 'w': [wv] * ns, 'wmode': 'scalar', 'many': True}
+            else:
+                pps = [rng.choice([0.02, 0.05, 0.1]) for _ in range(ns)]
+                pns = [1.0 - p for p in pps]
+                cf = [[[v for v in mts[0]]] for _ in range(ns)]
+                yield {'kind': 'pp-multi', 'coeffs': cf, 'mts': mts, 'pp': pps, 'pn': pns, 'w': [0.0] * ns, 'wmode': 'scalar', 'many': True}
+
     # ------------------------------------------------------------------ implementation
     def _pol(self, coeffs, mts, sigma, w):
         np = self.np
